@@ -58,7 +58,8 @@ def replay_records(run, recs, P, WD, tag, max_traces=None):
                 last = (k == clk_idx[-1])
                 sched.append(('clk', h[1], dorder if last else None, lorder if last else None))
         with quiet():
-            hw, wires, objs = netlist.build(net)
+            # every other replay gives the extra clock drivers the same name as the system one (names carry no meaning)
+            hw, wires, objs = netlist.build(net, same_names=len(traces) % 2 == 1)
         tr = simrun.record(hw, wires, objs, sched, net)
         traces.append(tr)
         metas.append({'net': net, 'hist': hist, 'vorder': vorder})
@@ -194,19 +195,24 @@ def part_b(run, count, cycles):
 
 def check(run):
     if run.tier == 'quick':
-        recs = mc_edge(run, 'e1', N=2, P=1, WD=2, shapes=['Reg', 'RegE', 'RegR', 'Not'], rvs=[0, 3], gated=False,
-                       invecs=[[0], [1], [2]], cycles=2)
-        replay_records(run, recs, 1, 2, 'mc-edge-2')
-        recs = mc_edge(run, 'e2', N=3, P=1, WD=1, shapes=['Reg', 'And2'], rvs=[0, 1], gated=False,
-                       invecs=[[0], [1]], cycles=2, mod=4)
-        replay_records(run, recs, 1, 1, 'mc-edge-3')
-        recs = mc_edge(run, 'e3', N=2, P=1, WD=1, shapes=['Mem', 'Reg', 'Seq'], rvs=[0], gated=False,
-                       invecs=[[0], [1]], cycles=2, maxn=2, mod=3)
-        replay_records(run, recs, 1, 1, 'mc-edge-mem')
-        recs = mc_edge(run, 'e4', N=2, P=1, WD=1, shapes=['Reg', 'RegE'], rvs=[0, 1], gated=True,
-                       invecs=[[0], [1]], cycles=2, maxn=2, mod=2)
-        replay_records(run, recs, 1, 1, 'mc-edge-2dom')
-        part_b(run, 400, 12)
+        with run.stage('e1'):
+            recs = mc_edge(run, 'e1', N=2, P=1, WD=2, shapes=['Reg', 'RegE', 'RegR', 'Not'], rvs=[0, 3], gated=False,
+                           invecs=[[0], [1], [2]], cycles=2)
+            replay_records(run, recs, 1, 2, 'mc-edge-2')
+        with run.stage('e2'):
+            recs = mc_edge(run, 'e2', N=3, P=1, WD=1, shapes=['Reg', 'And2'], rvs=[0, 1], gated=False,
+                           invecs=[[0], [1]], cycles=2, mod=4)
+            replay_records(run, recs, 1, 1, 'mc-edge-3')
+        with run.stage('e3'):
+            recs = mc_edge(run, 'e3', N=2, P=1, WD=1, shapes=['Mem', 'Reg', 'Seq'], rvs=[0], gated=False,
+                           invecs=[[0], [1]], cycles=2, maxn=2, mod=3)
+            replay_records(run, recs, 1, 1, 'mc-edge-mem')
+        with run.stage('e4'):
+            recs = mc_edge(run, 'e4', N=2, P=1, WD=1, shapes=['Reg', 'RegE'], rvs=[0, 1], gated=True,
+                           invecs=[[0], [1]], cycles=2, maxn=2, mod=2)
+            replay_records(run, recs, 1, 1, 'mc-edge-2dom')
+        with run.stage('b'):
+            part_b(run, 400, 12)
     else:
         recs = mc_edge(run, 'e1', N=2, P=1, WD=2, shapes=['Reg', 'RegE', 'RegR', 'RegER', 'Not', 'And2'], rvs=[0, 3],
                        gated=False, invecs=[[0], [1], [2], [3]], cycles=3, mod=4)
